@@ -481,6 +481,11 @@ SCRIPT_VARIANTS = 12
 
 
 def _build(spec):
+    if spec["kind"] == "prog":
+        # the HUGR of a generated well-formed builder program (harness/gen_prog.py, every builder family)
+        from props import C02
+
+        return C02._prog_hugr(spec["prog"])
     if spec["kind"] == "raw":
         # a HUGR edited through the mutators after building: deleted nodes, reused indices (children lists
         # that are not in index order), multi-links, order links — complete operations throughout
@@ -1055,6 +1060,11 @@ def cases(rng, tier):
             from props import C02
 
             yield {"kind": "raw", "spec": C02._gen_raw(rng), "configs": cs}
+            continue
+        if i % 8 in (3, 5):
+            from props import C02
+
+            yield {"kind": "prog", "prog": [rng.randrange(2**31), rng.randint(3, 24), rng.choice(C02.PROG_FAMILIES)], "configs": cs}
             continue
         size = rng.choice([0, 1, 2, 3, 4, 6, 8, 10]) if i % 7 else rng.choice([12, 16])
         yield {"kind": "mod", "seed": rng.randrange(10**9), "size": size, "configs": cs}
